@@ -43,7 +43,11 @@ func readOnlyBattery(m map[string]interface{}, path, key string, subs ...string)
 	add(fmt.Sprint(len(ln), len(mv.LeafPaths()), len(mv.LeafValues(true))))
 	el, _ := mv.Elements(path)
 	at, _ := mv.Attributes(path)
-	add(strings.Join(el, ",") + "|" + strings.Join(at, ","))
+	if !strings.Contains(path, "*") {
+		// Elements/Attributes describe the FIRST value of the path; under a wildcard which value
+		// is first depends on Go's map iteration order, so the result is not a function of the Map
+		add(strings.Join(el, ",") + "|" + strings.Join(at, ","))
+	}
 	rt, _ := mv.Root()
 	add(rt)
 	x, err := mv.Xml()
@@ -61,6 +65,34 @@ func readOnlyBattery(m map[string]interface{}, path, key string, subs ...string)
 	ax, err := mxj.AnyXml(m, "r", "e")
 	add(string(ax) + fmt.Sprint(err != nil))
 	return strings.Join(parts, "\x1f")
+}
+
+// keptResults: the bytes an encoder returned must not change when an encoder is called again
+// (no scratch buffer shared between calls).  a and b are different Maps of similar size.
+func keptResults(a, b map[string]interface{}) string {
+	type encf struct {
+		name string
+		f    func(m map[string]interface{}) []byte
+	}
+	encs := []encf{
+		{"Xml", func(m map[string]interface{}) []byte { x, _ := mxj.Map(m).Xml(); return x }},
+		{"XmlIndent", func(m map[string]interface{}) []byte { x, _ := mxj.Map(m).XmlIndent("", " "); return x }},
+		{"Json", func(m map[string]interface{}) []byte { x, _ := mxj.Map(m).Json(); return x }},
+		{"JsonIndent", func(m map[string]interface{}) []byte { x, _ := mxj.Map(m).JsonIndent("", " "); return x }},
+		{"Gob", func(m map[string]interface{}) []byte { x, _ := mxj.Map(m).Gob(); return x }},
+		{"AnyXml", func(m map[string]interface{}) []byte { x, _ := mxj.AnyXml(m, "r", "e"); return x }},
+		{"AnyXmlIndent", func(m map[string]interface{}) []byte { x, _ := mxj.AnyXmlIndent(m, "", " ", "r", "e"); return x }},
+	}
+	for _, e := range encs {
+		x := e.f(a)
+		kept := string(x)
+		e.f(b)
+		e.f(a)
+		if string(x) != kept {
+			return "the bytes returned by " + e.name + " changed during later encoder calls"
+		}
+	}
+	return ""
 }
 
 // scribble changes every map and list of v in place.
@@ -101,6 +133,16 @@ func c17Exec(op string) string {
 	if !deepEq(before, m) {
 		notes = append(notes, "a read-only operation modified its receiver")
 	}
+	other := deepCopy(m).(map[string]interface{})
+	other["zz"] = "other"
+	for k, v := range other {
+		if sv, ok := v.(string); ok {
+			other[k] = sv + "!"
+		}
+	}
+	if note := keptResults(m, other); note != "" {
+		notes = append(notes, note)
+	}
 	// Copy: equal, and sharing nothing mutable
 	cp, err := mxj.Map(m).Copy()
 	if err == nil {
@@ -112,9 +154,18 @@ func c17Exec(op string) string {
 	// MapSeq forms
 	if ms, err := mxj.NewMapXmlSeq([]byte(doc)); err == nil {
 		b2 := deepCopy(map[string]interface{}(ms))
-		ms.Xml()
-		ms.XmlIndent("", " ")
+		x1, _ := ms.Xml()
+		k1 := string(x1)
+		x2, _ := ms.XmlIndent("", " ")
+		k2 := string(x2)
 		ms.StringIndent()
+		if ms2, err2 := mxj.NewMapXmlSeq([]byte("<other_root>" + doc + "</other_root>")); err2 == nil {
+			ms2.Xml()
+			ms2.XmlIndent("", " ")
+		}
+		if string(x1) != k1 || string(x2) != k2 {
+			notes = append(notes, "the bytes returned by a MapSeq encoder changed during later encoder calls")
+		}
 		if !deepEq(b2, map[string]interface{}(ms)) {
 			notes = append(notes, "a MapSeq encoder modified its receiver")
 		}
@@ -242,7 +293,19 @@ func c17Stress(r *Rng, tier string, res *Result) {
 		res.ImplOnly += workers
 		for w := 0; w < workers; w++ {
 			if got[w] != want {
-				f := Failure{Op: "implonly stress", Desc: fmt.Sprintf("concurrent round %d worker %d on shared map=%s doc=%q", round, w, jsonOf(shared), doc), Impl: clip(got[w], 300), Model: clip(want, 300), Reason: "a goroutine saw results different from sequential execution", Sig: "stress:differs"}
+				gp, wp := strings.Split(got[w], "\x1f"), strings.Split(want, "\x1f")
+				di := 0
+				for di < len(gp) && di < len(wp) && gp[di] == wp[di] {
+					di++
+				}
+				gd, wd := "", ""
+				if di < len(gp) {
+					gd = gp[di]
+				}
+				if di < len(wp) {
+					wd = wp[di]
+				}
+				f := Failure{Op: "implonly stress", Desc: fmt.Sprintf("concurrent round %d worker %d on shared map=%s doc=%q path=%q key=%q subkeys=%q; battery part %d differs", round, w, jsonOf(shared), doc, path, key, subs, di), Impl: clip(gd, 600), Model: clip(wd, 600), Reason: "a goroutine saw results different from sequential execution", Sig: "stress:differs"}
 				res.OracleFails = append(res.OracleFails, f)
 				return
 			}
